@@ -56,6 +56,14 @@ def facts_before(path, idx):
     return res
 
 
-def describe_path(path, mod=None):
-    ls = [n.lineno for n in path.nodes if n.lineno]
-    return 'path via lines ' + '-'.join(str(x) for x in ls)
+def describe_path(path, mod=None, limit=6):
+    """Line-number free description of a path: its guard facts."""
+    fs = []
+    for (t, pol) in path.facts:
+        t = t if len(t) <= 48 else t[:45] + '...'
+        x = f'{t}' if pol else f'not({t})'
+        if x not in fs:
+            fs.append(x)
+    if len(fs) > limit:
+        fs = fs[:limit] + [f'+{len(fs) - limit} more']
+    return 'path[' + ' & '.join(fs) + ']'
